@@ -46,10 +46,13 @@ GENERATORS = {   # tools sub-directory -> [(command relative to that directory, 
 META = {
     "level": "model_checking",
     "functions": ["ascon_permute of each of the 12 plain assembly files (13 variants with both Xtensa ABIs), symbolically executed by enc/asm/<isa>.py",
-                  "x86-64 masked files: semantics decided in C10 (ascon_x{2,3,4}_permute, 33 masked-word functions); ABI/footprint by the same executor"],
+                  "x86-64 masked files: semantics decided in C10 (ascon_x{2,3,4}_permute, 33 masked-word functions); ABI/footprint by the same executor",
+                  "AVR5 masked files ascon_x2_permute / ascon_x3_permute: one round extracted at every start round 0..11 (loop back edge not taken) proved equal to the specification round on the "
+                  "unmasked value for all shares and all preserved randomness, plus the natural two-round run from round 10 as composition witness; ABI/footprint for start rounds 0..11"],
     "bounds": "start round concrete 0..12 (quick: {0, 6, 11, 12} for the 32-bit data paths), all 2^320 states symbolic; the executor follows the single control path of each start round "
               "and refuses data-dependent flags/addresses, ABI violations and out-of-footprint accesses",
-    "outside": "instruction encodings / assembler behaviour (the executor works on assembly text); AVR masked x2/x3 semantics unless listed as covered in the evidence; "
+    "outside": "instruction encodings / assembler behaviour (the executor works on assembly text); AVR masked x2/x3: the full 12-round run is not one query (cost doubles per round) - "
+               "claimed is every single round, two consecutive rounds, and the concrete iteration count seen by the executor; that consecutive iterations compose in general rests on the loop body being the same code; "
                "(a) byte-identity with generator output and (d) the executable-stack flag are syntactic side checks, explicitly not solver verdicts",
     "assumptions": ["instruction semantics tables of enc/asm/<isa>.py (each validated natively on random states and by the same CBMC equivalence)",
                     "callers zero-extend first_round to register width where the ABI leaves upper bits unspecified (aarch64 module poisons them instead)"],
@@ -105,8 +108,47 @@ def gen_asm(run_dir, q):
     return os.path.join(vlib.VERIF, "harness/common/libc_stubs.c")
 
 
-def queries(tier):
+def gen_avr_masked(run_dir, q):
+    n, r, iters = q.avrm
+    avr = load("avr5")
+    d = os.path.join(run_dir, "avrm-x%d-r%d-i%d" % (n, r, iters))
+    os.makedirs(d, exist_ok=True)
+    if not os.path.exists(os.path.join(d, "asm_gen.h")):
+        path = MASKED_AVR[n - 2]
+        src = os.path.join(vlib.REPO, "src")
+        text = avr.preprocess(os.path.join(vlib.REPO, path), [src, os.path.join(src, "masking"), os.path.join(src, "core")],
+                              list(avr.TARGET_DEFINES.get(os.path.basename(path), avr.TARGET_DEFINES.get("ascon-asm-avr5.S", []))))
+        # one round: the loop's back edge is not taken.  More than one round: the natural run from round 12 - iters
+        # (the x3 file reaches its loop head through a trampoline, so counting backward jumps is not a round count)
+        assert iters == 1 or r == 12 - iters
+        c, rep = avr.translate_masked(text, "ascon_x%d_permute" % n, r, "f", 3, back_edge_limit=0 if iters == 1 else None)
+        with open(os.path.join(d, "asm_gen.h"), "w") as f:
+            f.write(c)
+    q.includes = [d]
+    return os.path.join(vlib.VERIF, "harness/common/libc_stubs.c")
+
+
+def avr_masked_queries(tier):
     qs = []
+    avr = load("avr5")
+    if avr is None or not hasattr(avr, "translate_masked"):
+        return qs
+    for n in (2, 3):
+        shapes = [(r, 1) for r in range(12)] + [(10, 2)]
+        if tier == "quick":
+            shapes = [(0, 1), (5, 1), (11, 1), (10, 2)] if n == 2 else [(0, 1), (11, 1)]
+        for (r, iters) in shapes:
+            q = Query("avr5-masked:x%d:r%d:iters%d" % (n, r, iters), "harness/C18/avr_masked.c", backend="c64", with_backend=False, form=None,
+                      gen_srcs=[gen_avr_masked], defs={"N": n, "ROUND": r, "ITERS": iters}, unwind=130, timeout=3000, mem_gb=14, cost=300 * n * iters,
+                      shape={"file": MASKED_AVR[n - 2], "start_round": r, "rounds_executed": iters, "max_shares": 3})
+            q.avrm = (n, r, iters)
+            q.group = "avr5-masked"
+            qs.append(q)
+    return qs
+
+
+def queries(tier):
+    qs = avr_masked_queries(tier)
     for path, module, layout, key, wide in FILES:
         if load(module) is None:
             continue
@@ -164,7 +206,7 @@ def side_checks(tier, run_dir):
                                       list(avr.TARGET_DEFINES.get(os.path.basename(path), avr.TARGET_DEFINES.get("ascon-asm-avr5.S", []))))
                 for r in range(12):        # documented domain 0..11 (see the note on the AVR do-while loop)
                     avr.translate_masked(text, "ascon_x%d_permute" % n, r, "f", 3)     # AVR clamps the maximum share count to 3
-                res.append({"name": "executor:avr5-x%d" % n, "ok": True, "kind": "symbolic execution", "detail": "start rounds 0..11: ABI, footprint, data independence; semantics validated natively on random states by the executor's author, CBMC equivalence only for the last rounds (cost doubles per round): not claimed"})
+                res.append({"name": "executor:avr5-x%d" % n, "ok": True, "kind": "symbolic execution", "detail": "start rounds 0..11: ABI, footprint, data independence; semantics: see the avr5-masked:* queries (every single round + two-round composition witness)"})
             except Exception as e:
                 res.append({"name": "executor:avr5-x%d" % n, "ok": False, "kind": "symbolic execution", "detail": str(e)[:600]})
     else:
